@@ -44,8 +44,10 @@ def domain(sigma_zero=False, inflated=False):
     return dom
 
 
-def judge(obls, dom, prefix, shape, fn, replay):
-    """group the safety obligations by (kind@site) and decide each instance by intervals"""
+def judge(obls, dom, prefix, shape, fn, replay, away=True):
+    """group the safety obligations by (kind@site) and decide each instance by intervals;
+    away: a denominator must be bounded away from zero (|d| >= 1e-300), not merely non-zero
+    over the reals - a float denominator can underflow"""
     ev = Evaluator(dom)
     groups = {}
     t0 = time.time()
@@ -53,6 +55,14 @@ def judge(obls, dom, prefix, shape, fn, replay):
         if o.kind != "safety":
             continue
         ok = ev.holds(o.goal)
+        if ok and away and o.name.startswith("div-nonzero"):
+            g = o.goal
+            den = g.children()[0].children()[0] if g.decl().kind() == z3.Z3_OP_NOT else g.children()[0]
+            try:
+                v = ev.ev(den).numeric()
+                ok = v.lo >= 1e-300 or v.hi <= -1e-300
+            except Exception:  # noqa: BLE001
+                ok = False
         g = groups.setdefault(o.name, [0, 0, None])
         g[0] += 1
         g[1] += ok
@@ -141,7 +151,7 @@ def unit_rate(model, sizes, ranks, limit, sigma_zero):
     bad = [o for o in outs if o[0] != "return"]
     recs.append(driver.rec(f"C08/{model}/rate/no-raise@{shape}", "discharged" if not bad else "refuted", "explorer", 0, fn=fn, shape=shape,
                            note=f"{len(outs)} paths" + (f"; {bad[0][1]!r}" if bad else ""), replay=None if not bad else rp))
-    r, ev = judge(ctx.all_obls, domain(sigma_zero=sigma_zero), f"C08/{model}/rate", shape, fn, rp)
+    r, ev = judge(ctx.all_obls, domain(sigma_zero=sigma_zero), f"C08/{model}/rate", shape, fn, rp, away=not sigma_zero)
     recs += r
     good = [o for o in outs if o[0] == "return"]
     if good and not sigma_zero:
@@ -171,8 +181,45 @@ def unit_predict(model, sizes):
     return recs
 
 
+def unit_gauss():
+    """the bodies of v, w, vt, wt (real AST, phi_major/phi_minor by contract): every division has a
+    denominator that the branch guard keeps away from zero *as a float*: |denominator| >= 2^-1000 on
+    the path (a denominator that is merely non-zero over the reals can underflow to 0.0)"""
+    from . import c17
+    from .. import tactics
+    from .util import settle, enc_model
+    recs = []
+    tiny = z3.RealVal(2) ** -1000 if False else z3.RealVal("1/" + str(2 ** 1000))
+    for fnname in ("v", "w", "vt", "wt"):
+        G = c17.GaussWorld()
+        ctx = Ctx("R", safety=True, feas_timeout_ms=2000)
+        npaths = [0]
+
+        def run(ctx, fnname=fnname):
+            x, t = G.inputs(ctx)
+            del G.phis[:]
+            out = call(G.wl[fnname], x, t)
+            npaths[0] += 1
+            mk = lambda md: {"kind": "c08_gauss", "fn": fnname, "x": enc_model(md, "x", 2), "t": enc_model(md, "t", 2)}
+            ctx.oblige(f"C08/{fnname}/no-raise", out[0] == "return", meta={"replay": mk, "fn": fnname, "unbounded": True})
+            # strengthen the generated div-nonzero obligations
+            for o in list(ctx.obls):
+                if o.kind == "safety" and o.name.startswith("div-nonzero") and not o.meta.get("done"):
+                    g = o.goal
+                    den = g.children()[0].children()[0] if g.decl().kind() == z3.Z3_OP_NOT else g.children()[0]
+                    o.meta["done"] = True
+                    o.name = f"C08/{fnname}/denominator-kept-away-from-zero@" + o.name.split("@")[-1]
+                    o.goal = z3.Or(den >= tiny, den <= -tiny)
+                    o.kind = "post"
+                    o.meta.update(replay=mk, fn=fnname, unbounded=True)
+                    # the obligation is about the path *up to the division*: hypotheses were snapshotted then
+        explore(ctx, run)
+        recs += settle([o for o in ctx.all_obls if o.kind != "safety"], mode="R", unbounded=True, timeout_ms=20000)
+    return recs
+
+
 def units(tier):
-    us = []
+    us = [("unit_gauss", ())]
     for m in extract.MODELS:
         shapes = [(1, 1), (2, 1), (16, 1), (2, 1, 3), (1, 1, 1, 1)] if tier == "quick" else \
             [(1, 1), (2, 1), (16, 1), (16, 16), (2, 1, 3), (1, 1, 1, 1), (2, 16, 1, 3), (1,) * 6, (1,) * 8, (16, 1, 2, 1, 1, 3, 1, 16)]
@@ -185,7 +232,7 @@ def units(tier):
             us.append(("unit_rate", (m, s, r, False, True)))
         for s in ([(1, 1), (2, 1), (16, 16), (1, 1, 1), (2, 1, 1, 3)] if tier == "quick" else [(1, 1), (2, 1), (16, 16), (1, 1, 1), (2, 1, 1, 3), (1,) * 6, (16,) * 8]):
             us.append(("unit_predict", (m, s)))
-    us.sort(key=lambda u: -sum(u[1][1]) * len(u[1][1]))
+    us.sort(key=lambda u: -sum(u[1][1]) * len(u[1][1]) if u[0] != "unit_gauss" else -10 ** 6)
     return us
 
 
@@ -200,11 +247,11 @@ def main(tier, seed):
         assumptions=[
             "input domain (the property's, relative to beta in [25/6*1e-3, 25/6*1e3]): |mu| <= 20 beta, sigma in [1e-4 beta, 10 beta] (or sigma >= 0 with tau > 0), tau in [0, 100 beta] (finite upper bound added), kappa in (0, 1e-2], custom gamma in [0, 1e6], teams of up to 16 players",
             "A-fp: division by zero, sqrt / inverse-CDF domain errors, exp overflow and index errors are excluded by proof; 'finite' then rests on rounding not pushing a value bounded by 1e300 in the reals over the float range",
-            "v, w, vt, wt enter through the value clauses of their contracts (0 < v <= |x-t|+1, |vt| <= |x|+t, w, wt in [0,1]); that their own bodies are total and finite is C17's branch obligations (denominators bounded below by the guards)",
+            "v, w, vt, wt enter _compute through the value clauses of their contracts (0 < v <= |x-t|+1, |vt| <= |x|+t, w, wt in [0,1]); their own bodies are executed here too (unit_gauss): no path raises and every denominator is kept >= 2^-1000 in magnitude by the branch guard (a merely non-zero real denominator can underflow to 0.0); with sigma = 0 allowed (tau > 0 without a lower bound) denominators are only proved non-zero over the reals",
             "phi_major / phi_major_inverse as Phi / PhiInv with the inverse-CDF argument proved inside (0,1); erfc / exp with non-positive argument in the stdlib wrappers cannot overflow",
             "shape-bounded: tie patterns all for n <= 4, three representative ones above; shapes in coverage.shapes",
         ],
         explanation=("While the real _compute, rate (tau inflation, sort, update, clamp) and predict_win/draw/rank run in R-mode on symbolic games, every division, square root, exp and inverse-CDF call emits a safety obligation named after its source line; each is discharged by sound interval evaluation of the operand over the property's domain, with a scale degree in beta so that the bound holds for every beta in six orders of magnitude (e.g. |theta/c| <= 227 for exp, s_i >= (1e-4 beta)^2 for the share, 1+exp >= 1, max(.,kappa) > 0 under the root); "
                      "no path of a well-formed call ends in an exception and every result is bounded by 1e300."),
-        shapes=sorted({str(u[1][1]) for u in units(tier)}),
+        shapes=sorted({str(u[1][1]) for u in units(tier) if u[0] != "unit_gauss"}),
     )
